@@ -31,11 +31,11 @@ var sinkB bool
 
 // observed extremes, reported in the evidence file (margin to the thresholds)
 var (
-	c09Mu       sync.Mutex
-	c09MaxRatio float64
+	c09Mu          sync.Mutex
+	c09MaxRatio    float64
 	c09MaxRatioFam string
-	c09MaxPB    float64
-	c09MaxPBFam string
+	c09MaxPB       float64
+	c09MaxPBFam    string
 )
 
 func c09Observe(c ev.Case, det int, ratio, pb float64, t2 time.Duration) {
